@@ -24,7 +24,8 @@ def main():
     if a.pkg:
         funcs = [k for k, c in cs.funcs.items() if k.startswith(a.pkg + '::') and not c.assumed and not c.is_iface]
     t0 = time.time()
-    prog, missing = load_program(funcs)
+    inl = [k for k, c in cs.funcs.items() if c.inline]
+    prog, missing = load_program(list(funcs) + inl)
     print('export %.1fs missing=%s' % (time.time() - t0, missing))
     for f in funcs:
         if f not in prog.funcs:
